@@ -8,9 +8,9 @@ Import ListNotations.
 Local Open Scope Z_scope.
 
 (* fuel |f|+1, 256 MB per request (the child process of the check) *)
-Definition asis_env (f : list Z) : env := mkEnv cfg_asis 268435456 (S (length f)).
-Definition pre5_env (f : list Z) : env := mkEnv cfg_pre5 268435456 (S (length f)).
-Definition fix_env (f : list Z) : env := mkEnv cfg_fixed 268435456 (S (length f)).
+Definition asis_env (f : list Z) : env := mkEnv cfg_asis 268435456 (S (length f)) (Z.of_nat (length f)) p_none.
+Definition pre5_env (f : list Z) : env := mkEnv cfg_pre5 268435456 (S (length f)) (Z.of_nat (length f)) p_none.
+Definition fix_env (f : list Z) : env := mkEnv cfg_fixed 268435456 (S (length f)) (Z.of_nat (length f)) p_none.
 
 (* ---------------------------------------------------------------- the code as it is now *)
 Lemma now_locsize : load_Db (pre5_env w_locsize) w_locsize = Crashed (Throw 1 16).
